@@ -12,6 +12,7 @@ from .. import gen
 from ..project import project
 
 EXH_MAX_INPUTS = 10
+ALGO_OPS = {'sub', 'subc', 'divmod', 'sqrt', 'eq', 'inc', 'add'}
 SAMPLED_ROWS = 48
 
 
@@ -85,6 +86,10 @@ def finish(case, c, pre, rng, returned, checks, outmode, outlabels, basis='', bo
     post = project(c)
     case.update({'pre': pre, 'post': post, 'returned': list(returned), 'checks': checks, 'outmode': outmode,
                  'outlabels': list(outlabels), 'basis': basis, 'bound': bound})
+    # one call of a generator that has an algorithm-level model (ArithAlgo.tla): the emitted
+    # netlist is compared with the model's (drift, never a verdict)
+    if 'algo' not in case and len(checks) == 1 and checks[0]['op'] in ALGO_OPS and len(post['g']) <= 1500:
+        case['algo'] = checks[0]
     case.update(rows_spec(c, rng))
     if len(post['g']) > 60:
         order = topo_order(post)
@@ -116,3 +121,5 @@ def features(case):
     b = case['src'].get('basis')
     if b:
         yield f'basis={b}'
+    if 'algo' in case:
+        yield 'netlist-compared-with-algorithm-model'
